@@ -559,14 +559,20 @@ class C02(Check):
 
         # ---- no buffer of the result is observably shared with the input
         if not fails:
-            toks = [(b, flip(b, i)) for i, (_, b) in enumerate(buffers(r))]
+            # (index arrays of sparse matrices are not written to - scipy reads them unchecked, a shared and
+            # corrupted one could crash the worker; for them shared memory with the input is the criterion)
+            structural = [(pth, b) for pth, b in buffers(r) if pth.endswith(".indices") or pth.endswith(".indptr")]
+            shared = [pth for pth, b in structural for _, b_in in buffers(shape) if b.size and b_in.size and np.shares_memory(b, b_in)]
+            toks = [(b, flip(b, i)) for i, (pth, b) in enumerate(buffers(r)) if not (pth.endswith(".indices") or pth.endswith(".indptr"))]
             try:
                 d3 = obs_diff(obs_in, observe(shape))
             except Exception as e:  # noqa - the input was broken by a write into the result
                 d3 = "observe(input) raises %s" % type(e).__name__
             for b, tok in reversed(toks):
                 unflip(b, tok)
-            self.note("write-through:%d-buffers" % len(toks))
+            if shared and not d3:
+                d3 = "sparse index array %s of the result is the input's" % shared[0]
+            self.note("write-through:%d-buffers" % (len(toks) + len(structural)))
             if d3:
                 fails.append(Failure(name, "result-shares-buffer-with-input", "%s: writing into the result's arrays changed the input at %s" % (ctx, d3)))
             elif obs_diff(obs_r, observe(r)) is not None:
